@@ -11,10 +11,15 @@ import (
 // ---- generator ------------------------------------------------------------------------------------------------------
 //
 // quick: the small exhaustive universe (every tree of ≤ 2 files from a pool of 12 × 4 context loaders / topologies × a fixed lookup
-// list and its reverse), ~60 random trees × 40 lookups, 300 smart-path ops; thorough: 2000 trees × 100 lookups, 6000 smart-path ops.
+// list and its reverse), the loader-kind universe (every tree of ≤ 2 files from a pool of 10 × 7 context loaders, genKinds),
+// ~60 random trees × 40 lookups, 300 smart-path ops; thorough: 2000 trees × 100 lookups, 6000 smart-path ops.
 
 var segPool = []string{"thing", "deep", "sub", "ta", "tb", "x1", "my_type", "ns"}
 var modPool = []string{"mymod", "other", "m3"}
+
+// module directories a tree may have: `environment` is the pseudo module name newFileBasedLoader treats as global (smart
+// paths not module-name relative) while find() still filters qualified names by it
+var modDirPool = []string{"mymod", "other", "m3", "environment"}
 var memberPool = []string{"Ta", "Tb", "Thing", "Deep", "X1"}
 
 func capSeg(s string) string {
@@ -89,6 +94,11 @@ func randFile(r *rand.Rand, mods []string) genFile {
 	if root[0] == "env" && r.Intn(6) == 0 && len(mods) > 0 {
 		// a global file inside a directory named like a module: the same name as a module's file
 		segs = append([]string{mods[r.Intn(len(mods))]}, segs...)
+	}
+	if mod != "" && r.Intn(4) == 0 {
+		// the OTHER candidate location of a name below a named loader: types/<mod>/… (where a loader whose paths are not
+		// module-name relative keeps Mod::…, and where a module-relative one keeps Mod::Mod::…)
+		segs = append([]string{mod}, segs...)
 	}
 	implied := append(append([]string{}, prefix...), segs...)
 	if mod != "" && mod != "environment" && r.Intn(5) == 0 {
@@ -177,9 +187,9 @@ func randFile(r *rand.Rand, mods []string) genFile {
 func randTree(r *rand.Rand, nLookups int) spec {
 	var s spec
 	nm := r.Intn(4)
-	perm := r.Perm(len(modPool))
-	for i := 0; i < nm && i < len(modPool); i++ {
-		s.mods = append(s.mods, modPool[perm[i]])
+	perm := r.Perm(len(modDirPool))
+	for i := 0; i < nm && i < len(modDirPool); i++ {
+		s.mods = append(s.mods, modDirPool[perm[i]])
 	}
 	nf := r.Intn(9)
 	var gfs []genFile
@@ -222,7 +232,9 @@ func randTree(r *rand.Rand, nLookups int) spec {
 		}
 		s.files[i].body = gfs[i].body
 	}
-	switch k := r.Intn(24); {
+	switch k := r.Intn(27); {
+	case k >= 24 && len(s.mods) > 0:
+		s.via = "f:" + s.mods[r.Intn(len(s.mods))]
 	case k >= 20:
 		s.via = "e"
 	case len(s.mods) == 0 || k < 5:
@@ -269,9 +281,9 @@ func randTree(r *rand.Rand, nLookups int) spec {
 		case 1: // extra segment
 			parts = append(parts, capSeg(segPool[r.Intn(len(segPool))]))
 		case 2: // wrong module
-			parts[0] = capSeg(append(modPool, "nomod")[r.Intn(len(modPool)+1)])
+			parts[0] = capSeg(append(append([]string{}, modDirPool...), "nomod")[r.Intn(len(modDirPool)+1)])
 		case 3: // extra leading segment
-			parts = append([]string{capSeg(append(modPool, "ns")[r.Intn(len(modPool)+1)])}, parts...)
+			parts = append([]string{capSeg(append(append([]string{}, modDirPool...), "ns")[r.Intn(len(modDirPool)+1)])}, parts...)
 		case 4:
 			parts[0] = "::" + parts[0]
 		}
@@ -360,6 +372,57 @@ var smallLookups = []string{"Thing", "thing", "Mymod::Thing", "MYMOD::THING", "M
 	"Mymod::Sub", "Mymod::Sub::Deep", "Other::Thing", "Mymod::Nope", "Thing::Nope", "Mymod::Wrong", "Mymod::Other", "Mymod::Thing", "Mymod::Ta",
 	"Other", "Mymod::Init_typeset", "mymod", "Other::Mymod", "MYMOD", "OTHER::MYMOD"}
 
+// the loader-kind universe: the three kinds of file loader newFileBasedLoader distinguishes — module name "" (the global
+// loader below env), the pseudo name `environment` (global by special case: smart paths not module-name relative, yet
+// find() filters qualified names by the name) and an ordinary module name (module-name relative paths) — each with files at
+// BOTH candidate locations of a name (types/thing.pp and types/<name of the loader>/thing.pp), so that a path derived with
+// the wrong setting of moduleNameRelative shows in either direction: found where absent, absent where found, wrong file.
+var kindPool = []file{
+	{segs: []string{"env", "types", "thing.pp"}, body: body{kind: "alias", name: "Thing"}},
+	{segs: []string{"env", "types", "environment", "thing.pp"}, body: body{kind: "object", name: "Environment::Thing"}},
+	{segs: []string{"env", "types", "mymod", "thing.pp"}, body: body{kind: "object", name: "Mymod::Thing"}},
+	{segs: []string{"modules", "environment", "types", "thing.pp"}, body: body{kind: "alias", name: "Thing"}},
+	{segs: []string{"modules", "environment", "types", "environment", "thing.pp"}, body: body{kind: "object", name: "Environment::Thing"}},
+	{segs: []string{"modules", "environment", "types", "mymod", "thing.pp"}, body: body{kind: "alias", name: "Mymod::Thing"}},
+	{segs: []string{"modules", "mymod", "types", "thing.pp"}, body: body{kind: "alias", name: "Mymod::Thing"}},
+	{segs: []string{"modules", "mymod", "types", "mymod", "thing.pp"}, body: body{kind: "object", name: "Mymod::Mymod::Thing"}},
+	{segs: []string{"modules", "mymod", "types", "environment", "thing.pp"}, body: body{kind: "alias", name: "Mymod::Environment::Thing"}},
+	{segs: []string{"modules", "environment", "types", "init_typeset.pp"}, body: body{kind: "typeset", name: "Init_typeset", types: []string{"Ta"}}},
+}
+
+var kindNames = []string{"Thing", "Environment::Thing", "Mymod::Thing", "Mymod::Mymod::Thing", "Mymod::Environment::Thing",
+	"Environment::Environment::Thing", "Environment::Mymod::Thing", "Environment", "Mymod", "Init_typeset", "ENVIRONMENT::THING", "thing"}
+
+var kindVias = []string{"g", "d", "e", "m:mymod", "m:environment", "f:mymod", "f:environment"}
+
+func genKinds(emit func(spec)) {
+	// HasEntry before anything is loaded, every load, HasEntry again, Discover
+	var ls []lookup
+	for _, n := range kindNames[:7] {
+		ls = append(ls, lookup{op: "has", name: n})
+	}
+	for _, n := range kindNames {
+		ls = append(ls, lookup{op: "load", name: n})
+	}
+	for _, n := range kindNames[:7] {
+		ls = append(ls, lookup{op: "has", name: n})
+	}
+	ls = append(ls, lookup{op: "discover"})
+	for vi, via := range kindVias {
+		mods := []string{"mymod", "environment"}
+		if vi%2 == 1 {
+			mods = []string{"environment", "mymod"}
+		}
+		emit(spec{mods: mods, via: via, lookups: ls})
+		for i := range kindPool {
+			emit(spec{mods: mods, files: []file{kindPool[i]}, via: via, lookups: ls})
+			for j := i + 1; j < len(kindPool); j++ {
+				emit(spec{mods: mods, files: []file{kindPool[i], kindPool[j]}, via: via, lookups: ls})
+			}
+		}
+	}
+}
+
 func gen(g *core.G) {
 	emit := func(s spec) { g.Emit(s.String()) }
 	// two lookup lists: the fixed one and its reverse (every pair of names is asked in both orders)
@@ -381,6 +444,7 @@ func gen(g *core.G) {
 			}
 		}
 	}
+	genKinds(emit)
 	trees, lookups := 60, 40
 	if g.Thorough() {
 		trees, lookups = 2000, 100
@@ -433,7 +497,7 @@ func gen(g *core.G) {
 	bad := []spec{
 		{mods: []string{"Mymod"}, via: "g"},
 		{mods: []string{"mymod", "mymod"}, via: "g"},
-		{mods: []string{"mymod", "environment"}, via: "g"},
+		{mods: []string{"mymod"}, via: "f:other"},
 		{mods: nil, via: "d"},
 		{mods: []string{"mymod"}, via: "m:other"},
 		{mods: []string{"mymod"}, via: "g", files: []file{{segs: []string{"env", "types", "a.pp"}, body: body{kind: "alias", name: "A"}}, {segs: []string{"env", "types", "a.pp", "b.pp"}, body: body{kind: "bare"}}}},
